@@ -290,7 +290,7 @@ def run_case(case, mode):
             for cm in cms:
                 st.enter_context(cm)
             try:
-                rt.res(world.f(case.get("arg", 0)))
+                rt.res(world.f(rt.dec(case.get("arg", 0))))
             except (rt.ScriptBase, NameError):
                 rt.caught()
     except rt.BadScript as ex:
